@@ -1260,6 +1260,30 @@ impl SparqlDatabase {
         }
     }
 
+    /// The line without its `# comment`; a `#` inside an IRI or a string literal belongs to the term.
+    fn n3_strip_comment(line: &str) -> &str {
+        let mut in_iri = false;
+        let mut in_literal = false;
+        let mut escaped = false;
+        for (at, character) in line.char_indices() {
+            if escaped {
+                escaped = false;
+                continue;
+            }
+            match character {
+                '\\' if in_literal => escaped = true,
+                '"' if !in_iri => in_literal = !in_literal,
+                '<' if !in_literal => in_iri = true,
+                '>' if !in_literal => in_iri = false,
+                // an IRI reference contains no white space: `<` was an operator, not an IRI
+                _ if character.is_whitespace() && !in_literal => in_iri = false,
+                '#' if !in_iri && !in_literal => return line[..at].trim(),
+                _ => {}
+            }
+        }
+        line
+    }
+
     /// `@prefix label: <namespace> .` (comment already stripped) as (label, namespace).
     fn n3_prefix_declaration(line: &str) -> Option<(String, String)> {
         if !line.starts_with("@prefix") {
@@ -1291,7 +1315,7 @@ impl SparqlDatabase {
         for chunk in &chunks {
             declared_before.push(declared.clone());
             for raw_line in chunk {
-                let line = raw_line.find('#').map_or(raw_line.as_str(), |at| raw_line[..at].trim());
+                let line = Self::n3_strip_comment(raw_line);
                 if let Some((prefix, uri)) = Self::n3_prefix_declaration(line) {
                     declared.insert(prefix, uri);
                 }
@@ -1311,11 +1335,7 @@ impl SparqlDatabase {
                 let mut statement = String::new();
 
                 for raw_line in chunk {
-                    let mut line = raw_line.as_str();
-                    if let Some(comment_start) = line.find('#') {
-                        line = &line[..comment_start];
-                        line = line.trim();
-                    }
+                    let line = Self::n3_strip_comment(raw_line);
                     if line.is_empty() {
                         continue;
                     }
